@@ -29,6 +29,15 @@ type Desc struct {
 	subst  map[*ssa.Parameter]string
 }
 
+// ParamDesc is how a parameter is rendered: a method's receiver as "$recv" whatever it is called, any other
+// parameter as "$name".
+func ParamDesc(p *ssa.Parameter) string {
+	if fn := p.Parent(); fn != nil && fn.Signature.Recv() != nil && len(fn.Params) > 0 && fn.Params[0] == p {
+		return "$recv"
+	}
+	return "$" + p.Name()
+}
+
 func D() *Desc { return &Desc{MaxDepth: 14} }
 
 // DI is D with helper inlining (two levels).
@@ -71,7 +80,7 @@ func (d *Desc) of(v ssa.Value, depth int, seen map[ssa.Value]bool) string {
 		if s, ok := d.subst[x]; ok {
 			return s
 		}
-		return "$" + x.Name()
+		return ParamDesc(x)
 	case *ssa.FreeVar:
 		if b := FreeVarBinding(x); b != nil {
 			return "^" + rec(b)
